@@ -12,7 +12,7 @@ From Coq Require Import List NArith Arith Bool.
 From SNT Require Import Base.Outcome Automata.DfaData Automata.DfaDataProofs
   Automata.Tokenizer Automata.TokenizerRun Automata.TokenizerMunch Automata.TokenizerTheorems
   Gen.ProdDFA Decoder.Payload Decoder.Events Decoder.EventsProofs Decoder.EventsTheorems
-  Automata.ProdNfaData Automata.ProdCheck Automata.ProdCheckProofs Automata.ProdInstances Automata.ProdLanguage Gen.ProdNFA.
+  Decoder.PollLoop Automata.ProdNfaData Automata.ProdCheck Automata.ProdCheckProofs Automata.ProdInstances Automata.ProdLanguage Gen.ProdNFA.
 Import ListNotations.
 
 Section Generic.
@@ -249,6 +249,36 @@ Proof.
               (item_of (payload_at ids tb) d) chunks fuel H) as (s' & A & _).
   exists s'. exact A.
 Qed.
+
+(* the read loop of UnixTerminal::poll (src/unix.rs; model Decoder/PollLoop.v): one tty read per
+   chunk, `decode` until None, every event through the image handler.  As long as the handler does
+   not fail on the events of the stream, what reaches the event queue over ANY sequence of reads is
+   the delivery, in order, of the leftmost-longest tokens of the whole stream: nothing is lost,
+   duplicated or reordered by the read boundaries. *)
+Theorem C03_poll_loop : forall (d : dfa) (ids : list N) (tb : dtabs)
+    (pre : tok pitem -> list (tok pitem)) (handle : tok pitem -> option bool)
+    (chunks : list (list N)) (fuel : nat),
+  (length (concat chunks) + 3 <= fuel)%nat ->
+  forall evs,
+    deliver_all pre handle (fst (t_munch d (payload_at ids tb) (concat chunks))) = Some evs ->
+    exists s', poll_feed d (payload_at ids tb) pre handle fuel (t_init d) chunks [] = Ok (s', evs).
+Proof.
+  intros d ids tb pre handle chunks fuel Hf evs He.
+  destruct (C03_public_wrappers d ids tb chunks fuel Hf) as (s' & HF).
+  exists s'. exact (poll_feed_spec d (payload_at ids tb) pre handle fuel chunks _ [] _ _ HF evs He).
+Qed.
+
+(* the limit of that guarantee: `handle(..)?` — the first event on which the handler returns an error
+   ends poll with that error, and the events the decoder would still produce from the rest of the read
+   buffer are not delivered (the bytes were taken from the tty and live only in poll's stack buffer).
+   The handlers of the crate write to the in-memory write queue only and do not fail. *)
+Theorem C03_poll_loop_handler_error : forall (d : dfa) (ids : list N) (tb : dtabs)
+    (pre : tok pitem -> list (tok pitem)) (handle : tok pitem -> option bool)
+    fuel s buf queue ts s' rest,
+  tty_decode_into d (payload_at ids tb) fuel s buf = Ok (ts, s', rest) ->
+  deliver_all pre handle ts = None ->
+  poll_read d (payload_at ids tb) pre handle fuel s buf queue = Err site_handler.
+Proof. intros d ids tb pre handle. exact (poll_read_handler_error d (payload_at ids tb) pre handle). Qed.
 
 (* ------------------------------------------------------------------------- *)
 Check C03_chunking : forall Q Item q0 delta accepting terminal decode_item
